@@ -230,6 +230,13 @@ func checkOffsetInstance(r *core.Report, rule string, inst offsetInstance) {
 					nOther++
 					initWhy = "the accumulator is initialised with " + core.ExprStr(rhs)
 				}
+				if _, addend, isAdd := addStep(info, s); isAdd && addend != nil && s.Tok != token.ADD_ASSIGN {
+					// acc = acc + X before the loop
+					if isHeaderSizeValue(p, f, addend) {
+						okInit = true
+						nOther-- // counted as "initialised with" above
+					}
+				}
 				if s.Tok == token.ADD_ASSIGN {
 					if isHeaderSizeValue(p, f, rhs) {
 						okInit = true
